@@ -42,7 +42,8 @@ func init() {
 type HEntry struct {
 	Name  string `json:"name"`
 	ID    int    `json:"id"`
-	V0    bool   `json:"v0,omitempty"` // CIDv0 target (34-byte CID) instead of CIDv1 raw (36 bytes)
+	V0    bool   `json:"v0,omitempty"`    // CIDv0 target (34-byte CID) instead of CIDv1 raw (36 bytes)
+	Ident bool   `json:"ident,omitempty"` // identity-multihash target (the CID carries the bytes; its Tsize counts like any other)
 	Tsize int64  `json:"tsize"`
 }
 
@@ -78,6 +79,10 @@ func entryCid(e HEntry) cid.Cid {
 	h, _ := multihash.Sum(b, multihash.SHA2_256, -1)
 	if e.V0 {
 		return cid.NewCidV0(h)
+	}
+	if e.Ident {
+		ih, _ := multihash.Sum(b, multihash.IDENTITY, -1)
+		return cid.NewCidV1(cid.Raw, ih)
 	}
 	return cid.NewCidV1(cid.Raw, h)
 }
@@ -164,6 +169,67 @@ func readShard(rep *Report, in HamtInput, st *Store, root cid.Cid, expected map[
 		return unixfsnode.Reify(ipld.LinkContext{Ctx: context.Background()}, n, ls)
 	}
 	obs := &hamtObs{}
+	// ---- storage that fails during a first walk and recovers: whatever the interrupted walk left on the node, the node
+	// is afterwards the map of its entries again (length, iteration, lookups)
+	if !faulty && in.Mode != "hostile" {
+		var kids []int
+		for i := range order {
+			if isShard(i) {
+				kids = append(kids, i)
+			}
+		}
+		for variant := 0; variant < 2 && len(kids) > 0; variant++ {
+			n, err := fresh()
+			if err != nil {
+				break
+			}
+			st.Unavailable = map[string]uint64{}
+			for j, i := range kids {
+				if (variant == 0 && j == len(kids)/2) || (variant == 1 && j%2 == 0) {
+					st.Unavailable[order[i].Cid.KeyString()] = 1
+				}
+			}
+			var length int64
+			pairs, iterErrs := 0, 0
+			o := guard(func() error {
+				it := n.MapIterator()
+				for steps := 0; !it.Done() && steps < 4*len(order)+len(expected)+64; steps++ {
+					_, _, _ = it.Next()
+				}
+				if variant == 1 {
+					_ = n.Length()
+					for k := range expected {
+						_, _ = n.LookupByString(k)
+						break
+					}
+				}
+				st.Unavailable = map[string]uint64{} // storage recovers
+				length = n.Length()
+				it = n.MapIterator()
+				for steps := 0; !it.Done() && steps < 4*len(order)+len(expected)+64; steps++ {
+					if _, _, err := it.Next(); err != nil {
+						iterErrs++
+					} else {
+						pairs++
+					}
+				}
+				return nil
+			})
+			st.Unavailable = map[string]uint64{}
+			props := []string{"C02", "C15"}
+			if in.Mode == "ref" {
+				props = append(props, "C08")
+			}
+			switch {
+			case o.Class == "panic":
+				fail("C13", "heal-panic", "using a sharded directory node again after a walk interrupted by load errors panicked", "values", "panic")
+			case length != int64(len(expected)) || pairs != len(expected) || iterErrs != 0:
+				for _, p := range props {
+					fail(p, "heal-length", "after a walk interrupted by load errors (storage recovered since) the node does not report / yield its entries", fmt.Sprintf("length %d, %d pairs", len(expected), len(expected)), fmt.Sprintf("length %d, %d pairs, %d errors (variant %d)", length, pairs, iterErrs, variant))
+				}
+			}
+		}
+	}
 	// path shards of a key, computed independently from the dump
 	pathOf := func(key string) (idxs []int, missing bool, kind uint64) {
 		hv := binary.BigEndian.Uint64(mhash(key))
@@ -601,6 +667,7 @@ func readShard(rep *Report, in HamtInput, st *Store, root cid.Cid, expected map[
 				fail("C13", "preload-panic", "preload reification panicked", "node or error", "panic")
 			case anyMissing && po.Class == "ok":
 				fail("C06", "preload-partial", "preload reification of a directory with an unavailable shard returned a node", "error", "ok")
+				fail("C12", "preload-partial", "preload reification needed a shard that cannot be loaded and did not report the load error", "load error", "ok")
 			case !anyMissing && po.Class != "ok":
 				fail("C06", "preload-error", "preload reification failed although every shard is available", "ok", po.Class)
 			case !anyMissing:
@@ -1041,6 +1108,10 @@ func scnHamt(rep *Report, rng *Rng, tier string, outdir string) {
 		es := make([]HEntry, len(ns))
 		for i, n := range ns {
 			es[i] = HEntry{Name: n, ID: i, Tsize: int64(rng.Intn(100000)), V0: rng.Intn(5) == 0}
+			if !es[i].V0 && rng.Intn(6) == 0 {
+				es[i].Ident = true
+				es[i].Tsize = int64(1 + rng.Intn(40))
+			}
 		}
 		return es
 	}
